@@ -48,10 +48,30 @@ func runSTOREONCE(c *Ctx) {
 	}
 	outer := ir.Outermost(sites[0].Parent())
 	sh := findFlush(c)
+	// helpers of the node store: functions all of whose callers are the node store or its helpers
+	family := map[*ssa.Function]bool{outer: true}
+	for changed := true; changed; {
+		changed = false
+		for _, fn := range c.P.Funcs {
+			if family[fn] || fn.Parent() != nil || len(c.P.Callers[fn]) == 0 {
+				continue
+			}
+			all := true
+			for _, cs := range c.P.Callers[fn] {
+				if !family[ir.Outermost(cs.Parent())] {
+					all = false
+				}
+			}
+			if all {
+				family[fn] = true
+				changed = true
+			}
+		}
+	}
 	for _, cs := range c.P.Callers[outer] {
 		caller := ir.Outermost(cs.Parent())
-		if caller == outer || (sh != nil && caller == sh.F) {
-			c.OK(P.InstrPos(cs), "caller of "+ir.FuncName(outer)+": "+ir.FuncName(caller), "recursion or flush", false)
+		if family[caller] || (sh != nil && caller == sh.F) {
+			c.OK(P.InstrPos(cs), "caller of "+ir.FuncName(outer)+": "+ir.FuncName(caller), "recursion (possibly through a helper of the node store) or flush", false)
 		} else {
 			c.Violation(caller, P.InstrPos(cs), "node store called outside flush", ir.FuncName(caller)+" stores nodes without flush's completion barrier and error handling")
 		}
@@ -103,6 +123,19 @@ func runHASHNAME(c *Ctx) {
 	} else {
 		nameDef = ir.Origin(args[1])
 	}
+	// the name may be computed by a helper (hashOf(bytes)): look inside, mapping its parameters back
+	var henv map[*ssa.Parameter]ssa.Value
+	if inner, env, ok := helperResult(nameDef); ok {
+		if _, isEnc := staticCalleeName(ir.Origin(inner)); isEnc != nil {
+			nameDef, henv = ir.Origin(inner), env
+		}
+	}
+	back := func(v ssa.Value) ssa.Value {
+		if p, isP := ir.Strip(ir.ResolveCell(v)).(*ssa.Parameter); isP && henv != nil && henv[p] != nil {
+			return henv[p]
+		}
+		return v
+	}
 	cn, call := staticCalleeName(nameDef)
 	if call == nil || cn != "(*encoding/base64.Encoding).EncodeToString" {
 		c.Violation(outer, pos, "name is not base64 EncodeToString(hash)", "the name given to Persist.Store is not produced by base64 EncodeToString ("+cn+")")
@@ -141,7 +174,7 @@ func runHASHNAME(c *Ctx) {
 	}
 	c.OK(P.InstrPos(dcall), "digest", dn+"(bytes), whole 32-byte array", false)
 	// bytes identity
-	if ir.SameOrigin(dcall.Call.Args[0], args[2]) {
+	if ir.SameOrigin(back(dcall.Call.Args[0]), args[2]) {
 		c.OK(pos, "bytes hashed are the bytes stored", "same SSA value ("+ir.Sym(ir.Origin(args[2]))+")", false)
 	} else {
 		c.Violation(outer, pos, "bytes stored differ from bytes hashed", "Persist.Store is given a different byte slice than the one the name was computed from")
